@@ -219,6 +219,51 @@ def install(it, prog):
     ov['impl#str::parse'] = parse_u64
     ov['<String as Deref>::deref'] = lambda it_, k, r, a: deref(a[0])
 
+    # ---- the decoded text as a string: symbolic length; slicing at a byte index traps beyond the end and inside a multi-byte character
+    def text_len(it_, k, r, a):
+        t = deref(a[0])
+        if not (isinstance(t, Text) and t.v[0] in ('input', 'input-slice')):
+            raise Unsupported('len of a string that is not the decoded body')
+        if t.v[0] == 'input-slice':
+            return SInt(zterm(t.v[2]) - zterm(t.v[1]), 'usize')
+        if not hasattr(it_, 'c18_len'):
+            it_.c18_len = it_.fresh('body_len', 'usize', 0, 1 << 32)
+        return SInt(it_.c18_len.t, 'usize')
+    ov['String::len'] = ov['impl#str::len'] = text_len
+
+    def text_index(it_, k, r, a):
+        t = deref(a[0])
+        rg = a[1]
+        if not (isinstance(t, Text) and t.v[0] in ('input', 'input-slice')):
+            raise Unsupported('slicing a string that is not the decoded body')
+        ln = text_len(it_, k, r, [t]).t
+        base = t.v[1] if t.v[0] == 'input-slice' else 0
+        nm = rg.ty if isinstance(rg, Agg) else ''
+        fs = [c.v.t for c in rg.fields] if isinstance(rg, Agg) else []
+        if nm.endswith('RangeTo'):
+            lo, hi = 0, fs[0]
+        elif nm.endswith('RangeFrom'):
+            lo, hi = fs[0], ln
+        elif nm.endswith('Range'):
+            lo, hi = fs[0], fs[1]
+        elif nm.endswith('RangeFull'):
+            return Ref(Cell(t))
+        else:
+            raise Unsupported('string index by %r' % (rg,))
+        if it_.branch(z3.Or(zterm(hi) > zterm(ln), zterm(lo) > zterm(hi))):
+            it_.c18_log.append(((), ('slice-out-of-range', hi)))
+            raise Panic('byte index out of range of the string')
+        for nm_, ix in (('start', lo), ('end', hi)):
+            # a boundary inside the text may fall into a multi-byte character (never at 0 or at the end)
+            inside = z3.And(zterm(ix) > 0, zterm(ix) < zterm(ln))
+            if it_.branch(inside):
+                if it_.choose(2, 'char-boundary') == 1:
+                    it_.c18_log.append(((), ('slice-inside-a-character', ix)))
+                    raise Panic('byte index is not a char boundary')
+        return Ref(Cell(Text(('input-slice', zterm(base) + zterm(lo), zterm(base) + zterm(hi)))))
+    ov['<String as Index>::index'] = ov['<str as Index>::index'] = text_index
+    ov['String::as_str'] = lambda it_, k, r, a: deref(a[0])
+
     # ---- JSON accessors on the lazy input
     ov['<Value as Index>::index'] = json_index
 
@@ -331,6 +376,11 @@ def expected_from_log(spec, log):
     return 'json'
 
 
+def decisions_of(log):
+    """[(path, what, value term | None)] - terms are evaluated in the counterexample's model when the candidate is recorded"""
+    return [[list(map(str, p)), (w if not isinstance(w, tuple) else w[0]), (w[1] if isinstance(w, tuple) else None)] for p, w in log]
+
+
 def worker(job):
     name = job
     prog = PROG
@@ -344,13 +394,14 @@ def worker(job):
     def scenario(it):
         install(it, prog)
         status = it.fresh('status', 'u128', 0, (1 << 64))
+        it.c18_status = status.t
         body = Body()
         resp = H.mk_struct(prog, 'ic_management_canister_types::HttpRequestResult', status=Agg('Nat', [Cell(SInt(status.t, 'u128'))]), headers=Opaque('headers'), body=body)
         raw = H.mk_struct(prog, 'ic_management_canister_types::TransformArgs', response=resp, context=Opaque('context'))
         out = it.call(name, [raw])
         g = lambda f: out.fields[dres.fields.index(f)].v
         log = list(it.c18_log)
-        info = dict(endpoint=name, decisions=[(list(map(str, p)), str(w) if not isinstance(w, tuple) else w[0]) for p, w in log])
+        info = dict(endpoint=name, decisions=decisions_of(log))
         mdl = lambda: it.model_ if it.feasible() else None
         # frame: no headers, status kept
         hd = g('headers')
@@ -429,7 +480,7 @@ def worker(job):
         return want_kind
 
     explore(prog, scenario, stats=st, on_panic=lambda it, e: cands.add(kernel='f', role='trap', model=it.model_ if it.feasible() else None, endpoint=name, msg=str(e)[:300],
-                                                                      decisions=[(list(map(str, p)), str(w)) for p, w in getattr(it, 'c18_log', [])]))
+                                                                      status=getattr(it, 'c18_status', 200), decisions=decisions_of(getattr(it, 'c18_log', []))))
     rep.add_stats(st, 'f:transform-frame')
     rep.cov['shapes'] += 1
     need = {('not200', 'empty'), ('200', 'empty'), ('200', 'object')}
@@ -569,12 +620,19 @@ def confirm(cand, known):
     spec = SPEC[name]
     dec = cand.get('decisions') or []
     facts = {}
-    for p, w in dec:
+    vals = {}
+    for p, w, v in dec:
         facts.setdefault(tuple(p), []).append(w)
+        if v is not None:
+            vals[w] = v
     status = cand.get('status', 200)
     status = status if isinstance(status, int) else 200
     top = facts.get((), [])
-    if 'utf8-invalid' in top:
+    if 'slice-inside-a-character' in top and isinstance(vals.get('slice-inside-a-character'), int):
+        # valid UTF-8 that does not parse, with a two-byte character straddling the byte index the code slices at
+        n = vals['slice-inside-a-character']
+        body = (b'a' * (n - 1) + 'é'.encode() + b' <html>not json</html>') if 0 < n < 100000 else b'not json'
+    elif 'utf8-invalid' in top:
         body = b'\xff\xfe'
     elif spec[0] == 'text':
         body = b'840000' if 'text-u64' in top else b'not a number'
@@ -609,6 +667,9 @@ def confirm(cand, known):
     doc['request'] = dict(status=status, body=body.decode('latin1'))
     import re
     out = bytes.fromhex(res.get('body_hex', '')) if isinstance(res, dict) else b'?'
+    if isinstance(res, dict) and res.get('trap'):
+        doc['problems'] = ['real transform traps for status %s body %r: %s' % (status, body[:80], res['trap'][:160])]
+        return 'violation', doc
     bad = (not isinstance(res, dict)) or res.get('headers') != 0 or str(res.get('status')).replace('_', '') != str(status) or \
         (out and not re.fullmatch(rb'\{"height":(null|0|[1-9][0-9]*)\}', out)) or (status != 200 and out)
     if cand['role'] in ('height-member-is-not-the-value-at-the-documented-position', 'body-is-not-the-single-member-height-object', 'body-not-empty-for-a-response-without-height'):
